@@ -103,6 +103,8 @@ def run_state(args):
     E, ch = chains(tier, uid, tty)
     os.makedirs(w, exist_ok=True)
     lines = ['forkname ' + H.hx(b'job:runner'), 'sinks pipe', 'stdin ' + stdin]
+    if uid == 1000:
+        lines.append('errno 34')       # the caller's ambient errno (ERANGE) must not influence any filter decision
     if uid != 0:
         lines.append('setresuid %d 0 0' % uid)   # real uid differs from effective: filters must use the REAL uid
     for combo, st, text in ch:
